@@ -194,7 +194,13 @@ def handle (_ : Unit) (j : Json) : R (Unit × Json) := do
     let p ← field j "pid" >>= parseArg
     let c ← field j "cls" >>= parseArg
     let d ← field j "data" >>= parseArg
-    return ((), jObj [("model", jPyOut (ioprioSetExt icfg p c d)), ("spec", Json.null)])
+    let mo := ioprioSetExt icfg p c d
+    -- spec: a value handed to the kernel is built from the ints the caller passed, within the documented ranges
+    let ok : Bool := match mo, c, d with
+      | .syscall w, .int cv, .int dv => decide (0 ≤ cv ∧ cv ≤ 7 ∧ 0 ≤ dv ∧ dv ≤ 8191 ∧ w = orNat (cv * 8192) dv)
+      | .syscall _, _, _ => false
+      | _, _, _ => true
+    return ((), jObj [("model", jPyOut mo), ("spec", jObj [("applied_is_passed", Json.bool ok)])])
   else if op == "ionice_py" then
     let c ← intF j "cls"
     let v ← optF asInt j "value"
